@@ -28,6 +28,8 @@ type Program struct {
 	Dir       string
 	LoadS     float64
 	Files     []string // source files of the loaded root packages
+	ProtoRoot string
+	MergeFns  map[string]bool
 	mu        sync.Mutex
 }
 
@@ -67,6 +69,10 @@ func Load(dir string, overlay map[string][]byte, patterns []string) (*Program, e
 			sp.Build()
 		}
 		p.Files = append(p.Files, rp.GoFiles...)
+	}
+	p.MergeFns = map[string]bool{}
+	for _, f := range DefaultMergeFns {
+		p.MergeFns[f] = true
 	}
 	registerIntrinsics(p)
 	p.LoadS = time.Since(t0).Seconds()
@@ -193,6 +199,7 @@ type HarnessResult struct {
 	Steps        int                   `json:"ssa_instructions_executed"`
 	FeasUnknown  int                   `json:"feasibility_unknown"`
 	Samples      []string              `json:"samples,omitempty"`
+	ForkSites    map[string]int        `json:"fork_sites,omitempty"`
 }
 
 type Hook func(x *Exec)
@@ -201,7 +208,7 @@ type Hook func(x *Exec)
 func (p *Program) RunHarness(fn *ssa.Function, cfg *Config, workers int) *HarnessResult {
 	t0 := time.Now()
 	res := &HarnessResult{Name: fn.Name(), Status: map[string]int{}, Obligations: map[string]*ObSummary{},
-		Funcs: map[string]int{}, Summaries: map[string]int{}, Assumes: map[string]int{}, Queries: map[string]int{}}
+		Funcs: map[string]int{}, Summaries: map[string]int{}, Assumes: map[string]int{}, Queries: map[string]int{}, ForkSites: map[string]int{}}
 	stats := smt.NewStats()
 	var mu sync.Mutex
 	cond := sync.NewCond(&mu)
@@ -280,6 +287,9 @@ func (p *Program) RunHarness(fn *ssa.Function, cfg *Config, workers int) *Harnes
 				for k, v := range x.Assumes {
 					res.Assumes[k] += v
 				}
+				for k, v := range x.ForkSites {
+					res.ForkSites[k] += v
+				}
 				for _, e := range x.Effects {
 					if e.Kind == "nondeterminism" || e.Kind == "map-range" {
 						effects[e.Kind+": "+e.Name] = true
@@ -337,7 +347,7 @@ func (p *Program) runPath(fn *ssa.Function, cfg *Config, w *Worker, prefix []Dec
 	x = &Exec{P: p, B: b, Cfg: cfg, prefix: prefix, W: w,
 		gl: map[*ssa.Global]*Object{}, initFr: map[*ssa.Package]*Frame{},
 		Reached: map[string]bool{}, Funcs: map[string]int{}, Summ: map[string]int{}, Assumes: map[string]int{},
-		errIDs: map[string]int{}, lenAxiom: map[int]bool{}, pow10Of: map[int]*smt.Term{}}
+		ForkSites: map[string]int{}, errIDs: map[string]int{}, lenAxiom: map[int]bool{}, pow10Of: map[int]*smt.Term{}}
 	x.S = smt.NewSession(proc, b)
 	x.Env = newEnv(x)
 	defer func() {
